@@ -109,7 +109,7 @@ def run_cmd_c17(cmd, cwd):
 
 
 def run(ctx, args):
-    n = 4000 if ctx.tier == "quick" else 200000
+    n = 4000 if ctx.tier == "quick" else 60000   # every 20th case spawns the stand-in pkg-config several times: keep the thorough tier within minutes on a busy machine
     rng = ctx.rng
     st = lean_check(ctx, ["LlgoVerif.Props.C17"], ["LlgoVerif/Props/C17.lean"],
                     extra_files=["LlgoVerif/Model/Shell.lean", "LlgoVerif/Lemmas/Shell.lean", "LlgoVerif/Model/Utf8.lean"],
@@ -339,8 +339,8 @@ printf '%s\\n' "$out"
             lines_real.append(line)
             lines_model.append(line)
             index.append(1)
-    real, rc, err = run_lines([harness], lines_real, env=henv)
-    model, rc2, err2 = run_lines([modeld], lines_model)
+    real, rc, err = run_lines([harness], lines_real, env=henv, timeout=4 * 3600)
+    model, rc2, err2 = run_lines([modeld], lines_model, timeout=4 * 3600)
     if len(real) != len(lines_real) or len(model) != len(lines_model):
         raise RuntimeError("driver/harness died: real %d/%d model %d/%d\n%s\n%s" % (len(real), len(lines_real), len(model), len(lines_model), err[-2000:], err2[-2000:]))
 
